@@ -90,11 +90,15 @@ def fmt_template(hexstr):
             out.append(("lit", b[i + 2:i + 2 + ln].decode("utf-8", "replace")))
             i += 2 + ln
         elif n >= 0xC0:
+            flags = width = prec = None
             if n & 1:
+                flags = int.from_bytes(b[i:i + 4], "little")
                 i += 4
             if n & 2:
+                width = int.from_bytes(b[i:i + 2], "little")
                 i += 2
             if n & 4:
+                prec = int.from_bytes(b[i:i + 2], "little")
                 i += 2
             idx = None
             if n & 8:
@@ -105,7 +109,7 @@ def fmt_template(hexstr):
                 nxt += 1
             else:
                 nxt = idx + 1
-            out.append(("arg", idx, n))
+            out.append(("arg", idx, n, flags, width, prec))
         else:
             return None
     return None
